@@ -224,6 +224,13 @@ func (st *State) havocLoop(f *Frame, body map[*ssa.BasicBlock]bool, ms *modSet) 
 	}
 	heapAll := false
 	memSorts := map[string]Sort{}
+	immW := map[string]Sort{}
+	defer func() {
+		for name, s := range immW {
+			_ = st.heapGet(st.heap, name, s)
+			st.heap.m[name] = st.fresh(name, s)
+		}
+	}()
 	var visitFn func(fn *ssa.Function, blocks map[*ssa.BasicBlock]bool, depth int)
 	seenFn := map[*ssa.Function]bool{}
 	visitFn = func(fn *ssa.Function, blocks map[*ssa.BasicBlock]bool, depth int) {
@@ -259,6 +266,12 @@ func (st *State) havocLoop(f *Frame, body map[*ssa.BasicBlock]bool, ms *modSet) 
 							}
 						}
 						continue
+					}
+					if n, s, ok := st.eng.immArrayOfStore(x.Addr); ok {
+						// a field declared immutable, written in the loop by one of its listed writers:
+						// its own heap array is loop state like any other (it is exempt from the havoc
+						// of calls, not from the writes of its writers)
+						immW[n] = s
 					}
 					st.sortsOfStore(x.Val.Type(), memSorts)
 				case *ssa.MapUpdate:
